@@ -1,33 +1,7 @@
-#![allow(dead_code)]
-//! aisverif — bounded exhaustive exploration of squidpickles/ais against reference models.
-//! See /verif/DESIGN.md. One binary, built three times (features std / alloc / none).
-mod canon;
-mod explore;
-mod json;
-mod par;
-mod props;
-mod spec;
-mod subj;
-
-use json::J;
+//! Command-line front end of the aisverif library (see lib.rs).
+use aisverif::json::J;
+use aisverif::*;
 use std::time::Instant;
-
-#[derive(Clone, Copy, PartialEq, Eq, Debug)]
-pub enum Tier {
-    Quick,
-    Thorough,
-}
-
-fn tier_of(s: &str) -> Tier {
-    match s {
-        "quick" => Tier::Quick,
-        "thorough" => Tier::Thorough,
-        _ => {
-            eprintln!("unknown tier {}", s);
-            std::process::exit(2)
-        }
-    }
-}
 
 fn usage() -> ! {
     eprintln!(
